@@ -142,6 +142,13 @@ def run_property(pid, tier, seed, mod):
     if prc != 0:
         proof_ok = False
         broken.append("Props/%s.v does not check:\n%s" % (pid, pout[-3000:]))
+    chk_note = None
+    if tier == "thorough" and prc == 0:
+        crc, cout = coqchk_props(pid)
+        chk_note = cout
+        if crc != 0:
+            proof_ok = False
+            broken.append("coqchk rejects Props/%s: %s" % (pid, cout[-1500:]))
     # streams
     ctx = {"tier": tier, "seed": seed, "model_ok": model_ok, "known": known}
     stream_results = []
@@ -217,6 +224,8 @@ def run_property(pid, tier, seed, mod):
         "known_findings_reproduced": sorted(seen_known),
         "build_notes": notes,
     }
+    if chk_note is not None:
+        cov["trusted_base"].append("coqchk -o (independent checker) on BFS.Props.%s: %s" % (pid, chk_note[-400:].replace("\n", " ")))
     cov.update(extra.get("coverage", {}))
     write_evidence(pid, tier, seed, cov, mod.ASSUMPTIONS, time.time() - t0, 1 if status else 0)
     return status
